@@ -18,6 +18,7 @@ use crate::{
         },
     },
     rtps::stateful_reader::RtpsStatefulReader,
+    transport::types::Guid,
 };
 use alloc::{string::String, vec::Vec};
 use core::ops::{Deref, DerefMut};
@@ -107,6 +108,11 @@ impl UserDefinedDataReader {
         self.subscription_matched_status.current_count_change -= 1;
         self.status_condition
             .add_communication_state(StatusKind::SubscriptionMatched);
+
+        // The writer is gone: stop expecting data from it
+        self.reader
+            .transport_reader
+            .delete_matched_writer(Guid::from(<[u8; 16]>::from(*publication_handle)));
     }
 
     /// Returns true if the writer was not yet known to be incompatible
